@@ -205,6 +205,12 @@ func hyphensStream(r *Run) {
 			ref := make([]tItem, len(items))
 			copy(ref, plain)
 			facesText := true
+			// hyphens on the INNER side of a lexical block ({% raw -%}, {%- endraw %}, {% comment -%}, {%- endcomment %}): the
+			// body is not literal text of the template that a hyphen could face. Two readings are admitted - the hyphen is inert
+			// (this implementation), or it strips the body's white space on its side - and nothing else: in particular it
+			// never reaches text OUTSIDE the block.
+			hasInner := false
+			refStrip := make([]tItem, len(items))
 			for b, p := range pos {
 				if m&(1<<uint(b)) == 0 {
 					continue
@@ -214,12 +220,22 @@ func hyphensStream(r *Run) {
 					v[i].TrimR = true
 					if i+1 < len(items) && items[i+1].Kind == 'x' && !(inRawOrComment(i) && (items[i].Name == "raw" || items[i].Name == "comment")) {
 						ref[i+1].Text = strings.TrimLeftFunc(ref[i+1].Text, unicode.IsSpace)
+					} else if inRawOrComment(i) && (items[i].Name == "raw" || items[i].Name == "comment") {
+						hasInner = true
+						if i+1 < len(items) && items[i+1].Kind == 'x' {
+							refStrip[i+1].Text = "L" // marker: strip this body text on the left in the second reading
+						}
 					} else {
 						facesText = false
 					}
 				} else {
 					v[i].TrimL = true
-					if i > 0 && items[i-1].Kind == 'x' && !(inRawOrComment(i) && (items[i].Name == "endraw" || items[i].Name == "endcomment")) {
+					if inRawOrComment(i) && (items[i].Name == "endraw" || items[i].Name == "endcomment") {
+						hasInner = true
+						if i > 0 && items[i-1].Kind == 'x' {
+							refStrip[i-1].Text += "R"
+						}
+					} else if i > 0 && items[i-1].Kind == 'x' {
 						ref[i-1].Text = strings.TrimRightFunc(ref[i-1].Text, unicode.IsSpace)
 						if strings.HasSuffix(ref[i-1].Text, "{") {
 							// the hyphen-free reference would spell `{` + `{{` / `{%`: a different token
@@ -267,7 +283,22 @@ func hyphensStream(r *Run) {
 				}
 				_ = empty
 				resRef := renderImpl(engineCfg{}, "", 0, spell(defaultDelims, ref), RealiseEnv(env))
-				if resRef != res {
+				resRef2 := resRef
+				if hasInner {
+					r.Count("inner-hyphen-of-lexical-block")
+					ref2 := make([]tItem, len(ref))
+					copy(ref2, ref)
+					for i := range ref2 {
+						if strings.Contains(refStrip[i].Text, "L") {
+							ref2[i].Text = strings.TrimLeftFunc(ref2[i].Text, unicode.IsSpace)
+						}
+						if strings.Contains(refStrip[i].Text, "R") {
+							ref2[i].Text = strings.TrimRightFunc(ref2[i].Text, unicode.IsSpace)
+						}
+					}
+					resRef2 = renderImpl(engineCfg{}, "", 0, spell(defaultDelims, ref2), RealiseEnv(env))
+				}
+				if resRef != res && resRef2 != res {
 					r.Violate("C13", "hyphen-facing-text-strips-exactly-adjacent-whitespace", cl,
 						fmt.Sprintf("with hyphens %q ; hyphens dropped and adjacent whitespace deleted %q", out, resRef))
 				}
